@@ -24,7 +24,9 @@ THEOREMS = ['Fsic.C18.' + n for n in [
     'class_aliases_nearest_declaration', 'instance_uses_own_class_aliases', 'existing_instances_keep_their_map',
     'instantiation_order_irrelevant', 'reassigned_aliases_used', 'reassignment_leaves_other_declarations',
     'failed_op_preserves_state', 'failed_replace_is_prefix', 'read_op_preserves_state',
-    'resolution_depends_only_on_aliases', 'plain_twin_agrees', 'plain_twin_history', 'plain_is_twin']]
+    'resolution_depends_only_on_aliases', 'plain_twin_agrees', 'plain_twin_history', 'plain_is_twin',
+    'ctor_routes_resolve_keys', 'from_dataframe_alias_columns', 'chain_label_resolves', 'from_dataframe_chain_labels',
+    'export_import_round_trip', 'round_trip_same_values', 'resolve_reencode', 'constructor_reencode', 'ctor_reencode']]
 RULE = ('(F) guard: 4 fixed cyclic/self maps are constructed in subprocesses (3 s limit, in parallel) before anything '
         'else; a call that does not return is a violation and keeps cyclic/self maps out of the in-process parts of '
         'that run. (A) every alias dict with keys from 4 alias names and values from those names + 2 variables + 1 '
@@ -88,10 +90,33 @@ RULE = ('(F) guard: 4 fixed cyclic/self maps are constructed in subprocesses (3 
         'equals the plain twin\'s (mixin attributes aside); copies and reindexed objects vs the plain twin\'s; 35% of the '
         'histories (models and containers, operations of FsicModel/AliasFail.lean) also vs the model: result and names / '
         'index / series / attributes / aliases / preferred_names after every operation. '
+        '(J) constructor routes (harness/alias_routes.py): Model(span, **kw), Model.from_dataframe(df[, strict=, **kw]) with '
+        'the columns / extra keywords named by canonical names / direct aliases / aliases of aliases / declared chains of 3 / '
+        'a mixture (plus the odd label that names nothing), the round trip Model.from_dataframe(m.to_dataframe(use_aliases='
+        'True, status=False, iterations=False)) and with the status / iterations columns left in, under random unambiguous '
+        'PREFERRED_NAMES, copy() / copy.copy / copy.deepcopy of an instance built through aliases (by keywords or from a '
+        'frame), Linker(submodels, **alias_kw) and its copies with submodels built by from_dataframe (one alias-enabled, its '
+        'columns alias-labelled); int / str / PeriodIndex spans, strict=True variants, int and float (NaN) data; parser-built '
+        'and hand-written models: outcome (instance / exception class) vs the canonical twin (the class WITHOUT the mixin, '
+        'same data under canonical names), every series by bytes + dtype, span, names, index, attributes, submodels; '
+        'absolutely: the variable a label resolves to holds exactly that column, every other variable the default; every '
+        'declared spelling reads the variable on the new instance; a few operations through aliases on the new instance vs '
+        'the twin; a copy does not share state with its original; integer cases also vs the model (fromDataframeAliased / '
+        'ctorAliased / linkerCtorAliased / roundTrip). (K) the form of the name: plain str, numpy.str_, the element of an '
+        'iterated NumPy array, a member of class Name(str, Enum), a user subclass of str, interned, built by concatenation '
+        '(JSON: {"form", "text"}) x every path that takes a name: m[name], m[name, label], m[name, a:b], the three writes, '
+        'getattr / setattr, name in m, replace_values, constructor keyword (plain and strict), from_dataframe column labels '
+        '(object Index of such labels), add_variable, eval, to_dataframe(use_aliases=True) of a class whose ALIASES / '
+        'PREFERRED_NAMES are themselves written in the form: four objects per history - aliased through the form, aliased '
+        'through plain str, the class without the mixin through the canonical name in the same form and in plain str: '
+        'result and full state after every operation must be those of the plain-str spelling (unless the class without the '
+        'mixin itself tells the forms apart on that path) and those of the plain class in the same form; _resolve_alias of '
+        'every name in every form vs the model. '
         'distinct = distinct (part, alias map, preferences, '
         'history); non-trivial = the map is not empty and (D, E) the case goes through at least one declared name, '
         '(H) at least one declared map and two instances, (I) at least one operation through a declared alias and at '
-        'least one failed operation')
+        'least one failed operation, (J) at least one label is an alias, (K) at least one name that is an alias comes in a '
+        'form that is not exactly str')
 TRUSTED = ['pandas DataFrame.rename(columns=d) maps each label through d, leaves other labels and all data alone '
            '(exercised by the export oracle on every case)',
            'Python set/dict semantics as modelled (set intersection size, dict insertion order, later key wins)',
@@ -135,15 +160,23 @@ ASSUMPTIONS = ['ALIASES is a dict of str to str; alias names are not names of at
                'of the object (member-like names, storage keys) is not consulted on attribute reads; a variable named '
                '`aliases` / `preferred_names` reads as the mixin\'s attribute; add_variable accepts an alias name (the '
                'history ends there: the name is both an alias and a variable from then on)',
+               '(J) a label given twice through two spellings of one variable is not generated (Python forbids the canonical '
+               'counterpart: the same keyword twice); the instance attribute `aliases` is not compared, only what every declared '
+               'spelling reads; linkers: no PeriodIndex span (HEAD compares submodel spans with `!=`, mixin or not)',
+               '(K) a str form is required to behave as the plain str only where the class without the mixin treats the two alike '
+               'on the same path (HEAD: everywhere); names are abstract in the Lean model (one element of the name type per '
+               '==/hash class), so the equal treatment of the forms is established by the harness, not by a theorem; the '
+               'theorems resolve_reencode / constructor_reencode / ctor_reencode state that nothing in the model depends on '
+               'the representation of a name',
                'read/write = the four wrapped accessors, replace_values, constructor keywords and code that uses them '
                '(weaker reading); paths the mixin does not wrap are not claimed: `name in model`, eval() of an expression '
                'that spells an alias, reindex(**fill_values) keyed by an alias are not alias-aware on the current tree']
 
 META = {
-    "text": "Theorems for every alias map, store, value semantics and operation history. Alias stage of AliasMixin.__init__ (self-map filter, loop bounded by range(len(aliases)+1), else: raise ValueError, second filter), at full strength for EVERY dict: if no cycle remains after dropping the entries X -> X it returns the remaining aliases each pointing at the end of its chain (len+1 passes always suffice: pigeonhole, distances double per pass), otherwise it raises ValueError - ValueError iff a cycle remains, both directions; {'Y': 'Y'} yields the empty map, {'A': 'B', 'B': 'A'} raises; the filter after the loop is dead code, the one in front is not. On an instance map every read/write/label access/bulk replacement/constructor keyword through a name is the plain container's operation on resolve(name), for all histories (refinement), two spellings that resolve alike are indistinguishable, the index never changes and no attribute named like an alias is ever created; the export changes labels only (data, count, order kept), a changed label is an alias of the old one, labels stay distinct under the guard, the preferred name is chosen, ambiguous preferences are rejected by the constructor check (iff) and by the export. The model is tied to the code by exhaustive comparison over small alias maps (plain, self-maps, cycles) / preference lists and random histories; a twin-model oracle searches the real code, self-maps included. Export with options: the export is rename with a label map that depends on the instance only (export_is_rename), so for every combination of status / iterations / include_internal the aliased frame has exactly the columns and data of the plain frame with the same options (rename_only_opts), renaming commutes with the option-driven selection and with appending the solution columns, and whether it raises does not depend on the options. Class hierarchies: Cls.ALIASES is the nearest own declaration along the parents (class_aliases_nearest_declaration); for every history of class statements, constructor calls, re-assignments, in-place changes and deletions an instance holds the constructor's result on its own class's ALIASES / PREFERRED_NAMES as of its creation and keeps it (instance_uses_own_class_aliases, existing_instances_keep_their_map), the constructor never writes class-level state, so the order of instantiation is irrelevant (instantiation_order_irrelevant). Error paths (FsicModel/AliasFail.lean: the instance with self.names, self.aliases, self.preferred_names as fields of the state; accessors, eval, add_variable, preferred_names assignment, export, get_closest_match): every operation that fails leaves the instance exactly as it was - replace_values, which HEAD applies key by key, leaves exactly the assignments before the failing key and never touches names, alias map, preferences, index, strict (failed_op_preserves_state, failed_replace_is_prefix); reads never change anything (read_op_preserves_state); no operation, failed or not, changes the alias map, so resolution is a function of the alias map and the name alone after any history (resolution_depends_only_on_aliases); the object equals its plain twin driven through resolved names after every history of successful and failed operations, failing iff the twin fails with the same class (plain_twin_agrees, plain_twin_history).",
+    "text": "Theorems for every alias map, store, value semantics and operation history. Alias stage of AliasMixin.__init__ (self-map filter, loop bounded by range(len(aliases)+1), else: raise ValueError, second filter), at full strength for EVERY dict: if no cycle remains after dropping the entries X -> X it returns the remaining aliases each pointing at the end of its chain (len+1 passes always suffice: pigeonhole, distances double per pass), otherwise it raises ValueError - ValueError iff a cycle remains, both directions; {'Y': 'Y'} yields the empty map, {'A': 'B', 'B': 'A'} raises; the filter after the loop is dead code, the one in front is not. On an instance map every read/write/label access/bulk replacement/constructor keyword through a name is the plain container's operation on resolve(name), for all histories (refinement), two spellings that resolve alike are indistinguishable, the index never changes and no attribute named like an alias is ever created; the export changes labels only (data, count, order kept), a changed label is an alias of the old one, labels stay distinct under the guard, the preferred name is chosen, ambiguous preferences are rejected by the constructor check (iff) and by the export. The model is tied to the code by exhaustive comparison over small alias maps (plain, self-maps, cycles) / preference lists and random histories; a twin-model oracle searches the real code, self-maps included. Export with options: the export is rename with a label map that depends on the instance only (export_is_rename), so for every combination of status / iterations / include_internal the aliased frame has exactly the columns and data of the plain frame with the same options (rename_only_opts), renaming commutes with the option-driven selection and with appending the solution columns, and whether it raises does not depend on the options. Class hierarchies: Cls.ALIASES is the nearest own declaration along the parents (class_aliases_nearest_declaration); for every history of class statements, constructor calls, re-assignments, in-place changes and deletions an instance holds the constructor's result on its own class's ALIASES / PREFERRED_NAMES as of its creation and keeps it (instance_uses_own_class_aliases, existing_instances_keep_their_map), the constructor never writes class-level state, so the order of instantiation is irrelevant (instantiation_order_irrelevant). Error paths (FsicModel/AliasFail.lean: the instance with self.names, self.aliases, self.preferred_names as fields of the state; accessors, eval, add_variable, preferred_names assignment, export, get_closest_match): every operation that fails leaves the instance exactly as it was - replace_values, which HEAD applies key by key, leaves exactly the assignments before the failing key and never touches names, alias map, preferences, index, strict (failed_op_preserves_state, failed_replace_is_prefix); reads never change anything (read_op_preserves_state); no operation, failed or not, changes the alias map, so resolution is a function of the alias map and the name alone after any history (resolution_depends_only_on_aliases); the object equals its plain twin driven through resolved names after every history of successful and failed operations, failing iff the twin fails with the same class (plain_twin_agrees, plain_twin_history). Constructor routes (FsicModel/AliasCtor.lean): every route that builds an instance - keywords, from_dataframe (column labels become keywords, spelled as they are; a keyword spelled like a column is Python's TypeError), linker, the export/import round trip - is construct o resolve-keys (ctor_routes_resolve_keys); when each variable is given once, columns / keywords named by ANY name resolving to a variable v initialise v with exactly that data, every other variable holds the default, and the result (instance or exception) is that of the class without the mixin on the canonically labelled table (from_dataframe_alias_columns); any name along a declared chain - 1, 2, 3 ... links - resolves on the instance like the start of the chain, so tables labelled anywhere along the chains build the same instance (chain_label_resolves, from_dataframe_chain_labels); importing the aliased export is importing the plain one and gives back the same values (export_import_round_trip, round_trip_same_values). Names are abstract: resolution, the constructor's alias stage and the constructor keywords commute with every injective re-encoding of the names (resolve_reencode, constructor_reencode, ctor_reencode); that Python's str forms of one name are one name for the code is checked by the harness (part K).",
     "design_ref": "DESIGN.md §5 M8, §6 C18, §7 row 14",
     "note": "Trusted: Lean kernel; axioms propext/Classical.choice/Quot.sound; the correspondence harness, which validates the hand-written model on generated cases only; pandas rename and Python dict/set semantics as modelled. Findings self-alias-hang / alias-cycle-hang fixed by ca9bf22 (a subprocess guard with a 3 s limit still watches for the hang; an in-process alarm backs it up). Guards: alias names are not variable/attribute names (no-duplicate-column claim, twin oracle). Open findings: add-variable-alias-name:unreachable, alias-name-is-object-attribute:getattr, variable-named-like-mixin-attribute:getattr.",
-    "technique": "Lean 4 proof (loop invariant with chain doubling, pigeonhole, refinement by induction over histories) + differential correspondence check + twin-model oracle + plain-twin / absolute-snapshot oracle over histories with failing operations"
+    "technique": "Lean 4 proof (loop invariant with chain doubling, pigeonhole, refinement by induction over histories) + differential correspondence check + twin-model oracle + plain-twin / absolute-snapshot oracle over histories with failing operations + constructor-route twin/absolute oracle + four-object name-form oracle"
 }
 
 KEY_SELF_HANG = 'self-alias-hang'
@@ -2038,6 +2071,7 @@ def check_hierarchies(ctx, rep, rng, count, budget=None):
 # (I) failing operations: plain twin + absolute snapshots (harness/alias_failops.py)
 
 import alias_failops as fo  # noqa: E402
+import alias_routes as ar  # noqa: E402
 
 
 def check_failops(ctx, rep, rng, count):
@@ -2073,8 +2107,8 @@ def check_failops(ctx, rep, rng, count):
 
 
 def _run_parts(ctx, rep):
-    """Workers 0-3: the parts (A)-(D), (E), (G), (H); the other workers: part (I).  With fewer than six workers:
-    everything in a row in worker 0."""
+    """Workers 0-3: the parts (A)-(D), (E), (G)+(J)+(K), (H); the other workers: part (I).  With fewer than six
+    workers: everything in a row in worker 0."""
     quick = ctx.tier == 'quick'
     n_i = (5000 if quick else 90000) * ctx.scale
     try:
@@ -2131,7 +2165,26 @@ def legacy_h(ctx, rep):
     check_hierarchies(ctx, rep, ctx.sub_rng('hier'), (350 if ctx.tier == 'quick' else 6000) * ctx.scale, Budget())
 
 
-LEGACY = [legacy_ad, legacy_e, legacy_g, legacy_h]
+def part_j(ctx, rep):
+    ar.check_ctor_routes(ctx, rep, ctx.sub_rng('ctor-routes'), (400 if ctx.tier == 'quick' else 9000) * ctx.scale)
+
+
+def part_k(ctx, rep):
+    ar.check_name_forms(ctx, rep, ctx.sub_rng('name-forms'), (300 if ctx.tier == 'quick' else 7000) * ctx.scale)
+
+
+def part_jk(ctx, rep):
+    part_j(ctx, rep)
+    part_k(ctx, rep)
+
+
+def legacy_g_jk(ctx, rep):
+    """(G), (J), (K) share a worker (together they are shorter than one share of (I))."""
+    legacy_g(ctx, rep)
+    part_jk(ctx, rep)
+
+
+LEGACY = [legacy_ad, legacy_e, legacy_g_jk, legacy_h]
 
 
 def run(ctx, rep):
@@ -2217,6 +2270,25 @@ def replay(ctx, rep, case):
             for x, impl, _, _ in tc:
                 print('  model:', ctx.drive([line('alias_hier', x)])[0])
                 print('  impl :', ' ; '.join(str(y) for y in impl))
+        except Exception as e:  # noqa: BLE001
+            print('  model: <driver unavailable>', e)
+    elif part == 'ctor-route':
+        tc = []
+        print('  regime:', ar.run_route_case(ctx, rep, case, tc))
+        try:
+            for x, impl, _ in tc:
+                print('  model:', ctx.drive([line('alias_ctor_route', x)])[0], '| impl:', impl)
+        except Exception as e:  # noqa: BLE001
+            print('  model: <driver unavailable>', e)
+    elif part == 'ctor-two-spellings':
+        print('  outcome:', ar.run_two_spellings_case(ctx, rep, case, []))
+    elif part == 'name-form':
+        tc = []
+        print('  regime:', ar.run_form_case(ctx, rep, {k: v for k, v in case.items() if k != 'resolve_form'}, tc))
+        try:
+            for x, impl, jc in tc:
+                print(f'  resolution through {jc["resolve_form"]}: model:', ctx.drive([line('alias_shorten', x)])[0].split('|')[-1],
+                      '| impl:', impl)
         except Exception as e:  # noqa: BLE001
             print('  model: <driver unavailable>', e)
     elif part == 'failops':
